@@ -154,4 +154,11 @@ static inline _Bool sp_D_within(struct vec_vec_I D, I_t m)
     for (U_t j = 0; j < XT_NTP; j++) if (D.e[i].e[j] < -m || D.e[i].e[j] > m) return 0;
   return 1;
 }
+/* the negation of l (spec side), for distance(from, 0) == bounds(-from) */
+static inline struct smt_lin sp_lin_neg(struct smt_lin l)
+{
+  for (U_t i = 0; i < LIN_MAX; i++) if (i < l.vars.n) l.vars.e[i].second.num = (I_t)-l.vars.e[i].second.num;
+  l.known_term.num = (I_t)-l.known_term.num;
+  return l;
+}
 #endif
